@@ -46,6 +46,12 @@ def rng_for(*parts: Any) -> random.Random:
     return random.Random(fingerprint(seed(), *parts))
 
 
+def rng_fixed(*parts: Any) -> random.Random:
+    """Seed-INDEPENDENT stream for core workloads whose known findings are listed per case (the constant is the
+    stream the per-case lists in known_findings.json were recorded with)."""
+    return random.Random(fingerprint(1, *parts))
+
+
 def base_env(shim: bool = False, **extra: str) -> dict[str, str]:
     """Environment for processes under test. Hooks are on only when shim=True."""
     env = {k: v for k, v in os.environ.items() if not k.startswith("VERIF_HOOK_")}
